@@ -217,6 +217,12 @@ def check(pid, tier):
     v = Verdict("C12")
     rp = replay(tier, v)
     cov = checks.trace_part("C12", "Runs", 300, ("interp", "tr"), "quick" if tier == "quick" else "quick4", v)
+    # initial sets with nb_points > 2n+1 started where only some coordinates are near their upper bound
+    cov2 = checks.trace_part("C12", "C12b", 64, ("interp", "tr"), "quick" if tier == "quick" else "thorough", v)
+    for k in ("states", "transitions", "traces_validated_against_impl", "universe_size", "universe_visited"):
+        if k in cov and k in cov2:
+            cov[k] += cov2[k]
+    cov["initial_set_universe"] = {k: cov2[k] for k in ("universe_size", "universe_visited") if k in cov2}
     cov["replay"] = {k: rp[k] for k in rp if k != "samples"}
     cov["states"] += rp["simulation_states"]
     cov["transitions"] += rp["simulation_states"]
